@@ -337,6 +337,7 @@ func (lfw *lazyFileWriter) Write(dt []byte) (int, error) {
 				lfw.fileMode = &mode
 				er = os.Chmod(lfw.dest, mode|0222)
 				if er == nil {
+					verifAfterWriterChmod(lfw.dest)
 					file, err = os.OpenFile(lfw.dest, os.O_WRONLY, 0)
 				}
 			}
